@@ -93,7 +93,7 @@ impl Property for C10 {
     const ID: &'static str = "C10";
 
     fn rule() -> String {
-        "proptest-generated container specs (contents, 0..2 extra content packs in their own files, directory with 1-2 entry stores whose address columns point at the real contents) are created with BasicCreator in the three packagings; derived forms: tools::concat of the NoConcat files in every order (all permutations up to 4 files, 24 sampled of 120 for 5), concat of two concats, a OneFile container behind a prefix of 1..8192 bytes {random, text, ELF header, bytes starting with 'jbk'+kind char}, and a concat placed next to a corrupted copy of a pack at its recorded location (identity inside the file first). Oracle (metamorphic + model): every form opens, every entry of every index window and every content equal the model, check() is true. Non-trivial = at least one content and one entry and a form other than the creator's own output (all cases have such forms); distinct by (content count, entry count, extra packs, prefix class, compression). Excluded: a prefix that is itself a complete valid Jubako pack (the reader rightly finds that pack at offset 0; the property is about embedding at the end of a foreign file).".into()
+        "proptest-generated container specs (contents, 0..2 extra content packs in their own files, directory with 1-2 entry stores whose address columns point at the real contents) are created with BasicCreator in the three packagings; derived forms: tools::concat of the NoConcat files in every order (all permutations up to 4 files, 24 sampled of 120 for 5), concat of two concats, a OneFile container behind a prefix of 1..8192 bytes {random, text, ELF header, bytes starting with 'jbk'+kind char}, and a concat placed next to a corrupted copy of a pack at its recorded location (identity inside the file first). Oracle (metamorphic + model): every form opens, every entry of every index window and every content equal the model, check() is true. Non-trivial = at least one content and one entry and a form other than the creator's own output (all cases have such forms); distinct by (content count, entry count, extra packs, prefix class, compression). Excluded: a prefix that is itself a complete valid Jubako pack (the reader rightly finds that pack at offset 0; the property is about embedding at the end of a foreign file). Form prefix-external: the packs living in their own files (TwoFiles content, NoConcat content and directory, extra packs) are themselves embedded at the end of another file. Extra packs are placed next to the entry point, in a sub-directory, or in a sibling directory (recorded location starting with '..').".into()
     }
 
     fn cases(tier: Tier) -> u32 {
